@@ -449,7 +449,7 @@ class Program:
         if getattr(self, "_normalised", False):
             return
         self._normalised = True
-        from .inline import alpha_normalise, expand_condition_locals, inline_new_temps, inlined, outline_reference_temps
+        from .inline import alpha_normalise, expand_condition_locals, inline_new_temps, inlined, loops_from_quantifiers, outline_reference_temps, split_conditional_expressions
         anchor_names = frozenset(anchor_names)
         self.inline_anchors = anchor_names
 
@@ -464,6 +464,8 @@ class Program:
             f.raw_node = getattr(f, "raw_node", f.node)
         for f in order:
             nf = inlined(self, f, pred=pred)
+            nf = split_conditional_expressions(nf)
+            nf = loops_from_quantifiers(nf)
             nf, ren = alpha_normalise(nf, tab)
             keep = set(tab.get(f.qual, {}).get("keys", {}).values())
             if f.qual in tab:
@@ -675,6 +677,18 @@ class Program:
                     out += format(F(v.value))
                 else:
                     raise NotConst("fstring")
+            return out
+        if isinstance(expr, ast.DictComp):
+            if len(expr.generators) != 1 or not isinstance(expr.generators[0].target, ast.Name):
+                raise NotConst("comprehension")
+            g = expr.generators[0]
+            it = F(g.iter)
+            out = {}
+            for v in (sorted(it, key=repr) if isinstance(it, (set, frozenset)) else it):
+                e2 = dict(env)
+                e2[g.target.id] = v
+                if all(self.fold(c, m, e2, _depth + 1) for c in g.ifs):
+                    out[self.fold(expr.key, m, e2, _depth + 1)] = self.fold(expr.value, m, e2, _depth + 1)
             return out
         if isinstance(expr, (ast.ListComp, ast.SetComp, ast.GeneratorExp)):
             if len(expr.generators) != 1:
